@@ -46,6 +46,15 @@ def jobs(ctx):
       for init in INITS:
         out.append(({'strategy': strat, 'init': init, 'reactor': prog, 'writer': ctx.pick(2, 3),
                      'oracles': ('c02',)}, (wide, fb)))
+    # a bounded cache under flow control: the fullness / space-available paths also touch `size`
+    out.append(({'strategy': strat, 'init': [('m', 1, -1.0)], 'max_cache': 2, 'flow': True,
+                 'reactor': [('store', 'n', 1, 1.0), ('store', 'm', 2, 2.0), ('store', 'o', 1, 3.0)], 'writer': 2,
+                 'oracles': ('c02',)}, (ctx.pick(1, 2), fb)))
+    # ... and one metric holding everything, so that a single drain takes the cache from full to empty
+    # (non-initial state: the cache starts full, with the cache-too-full flag already raised)
+    out.append(({'strategy': strat, 'init': [('m', 1, -1.0), ('m', 2, -2.0), ('m', 3, -3.0)], 'max_cache': 2, 'flow': True,
+                 'reactor': [('store', 'n', 1, 1.0), ('store', 'n', 2, 2.0)], 'writer': 2,
+                 'oracles': ('c02',)}, (ctx.pick(1, 2), fb)))
     if ctx.thorough:
       for init, prog in KEY_PROGRAMS[:2]:
         out.append(({'strategy': strat, 'init': init, 'reactor': prog, 'writer': 2, 'oracles': ('c02',),
